@@ -65,7 +65,7 @@ def run(prog, rep):
         rep.check(not muts, "E5", "%s.context never reassigned" % owner.rsplit("::", 1)[-1], "", "the enclosing environment of a nested set is fixed at construction",
                   "the context of a %s is changed after construction in %s" % (owner.rsplit("::", 1)[-1], [m[0].id for m in muts]))
     # whole-struct overwrite through *self = …
-    for f in prog.fns.values():
+    for f in prog.shape_fns():
         if f.body is None or f.self_path not in ("tsg::variables::Globals", "tsg::variables::VariableMap", "tsg::graph::Attributes", "tsg::graph::Graph", "tsg::graph::GraphNode"):
             continue
         for b in sorted(f.body.reachable()):
@@ -88,20 +88,20 @@ def run(prog, rep):
              ("tsg::graph::GraphNode", "edge_count"): r"^SmallVec::len\(&\*arg:self\.outgoing_edges\)$",
              ("tsg::graph::Graph", "node_count"): r"^Vec::len\(&\*arg:self\.graph_nodes\)$"}
     for (ty, nm), pat in table.items():
-        fl = [f for f in prog.fns.values() if f.self_path == ty and f.name == nm]
+        fl = [f for f in prog.shape_fns() if f.self_path == ty and f.name == nm]
         if len(fl) != 1:
             rep.violation("C17.read", "anchor-lost:%s::%s" % (ty, nm), "", "not found")
             continue
         r = canon(Tracer(fl[0].body).local(0))
         rep.check(re.match(pat, r) is not None, "C17.read", "%s::%s" % (ty.rsplit("::", 1)[-1], nm), fl[0].loc(), r[:100], "%s no longer reads the whole container in stored order: %s" % (nm, r[:160]))
-    ie = [f for f in prog.fns.values() if f.kind == "closure" and f.parent and f.parent.endswith("GraphNode::iter_edges")]
+    ie = [f for f in prog.shape_fns() if f.kind == "closure" and f.parent and f.parent.endswith("GraphNode::iter_edges")]
     if ie:
         r = canon(Tracer(ie[0].body).local(0))
         rep.check(re.match(r"^tuple\{graph::GraphNodeRef::GraphNodeRef\{\*\*?arg:\d+\.0\}, &\*?\*?arg:\d+\.1\}$", r) is not None, "C17.read", "iter_edges item", ie[0].loc(), r[:100], "iter_edges item is not (GraphNodeRef(sink), &edge): %s" % r[:120])
     # Globals::get / VariableMap::get: own map first, context on a miss
     rep.rule("C17.get", "lookups consult the own map and fall back to the context exactly on a miss")
     for ty, nm in (("tsg::variables::Globals", "get"), ("tsg::variables::VariableMap", "get")):
-        fl = [f for f in prog.fns.values() if f.self_path == ty and f.name == nm and f.body is not None and (f.trait is None or ty.endswith("VariableMap"))]
+        fl = [f for f in prog.shape_fns() if f.self_path == ty and f.name == nm and f.body is not None and (f.trait is None or ty.endswith("VariableMap"))]
         from ..engines.e5_writers import lookup_shape
         explicit = [f for f in fl if not any(is_callee(t, r"Option::<T>::or_else$") for b, t in f.body.calls()) and (_explicit_lookup(f) or lookup_shape(prog, f) is None)]
         fl = [f for f in fl if any(is_callee(t, r"Option::<T>::or_else$") for b, t in f.body.calls())]
@@ -121,7 +121,7 @@ def run(prog, rep):
                 cl_ok = True
         rep.check(ok and cl_ok, "C17.get", "%s::get" % ty.rsplit("::", 1)[-1], f.loc(), "values.get(name).or_else(|| context?.get(name))", "lookup is not `own map, else context`: %s" % r[:200])
     # the trait impl used by nested sets must be the full lookup (own map + context)
-    ti = [f for f in prog.fns.values() if f.self_path == "tsg::variables::Globals" and f.trait == "tsg::variables::Variables" and f.name == "get"]
+    ti = [f for f in prog.shape_fns() if f.self_path == "tsg::variables::Globals" and f.trait == "tsg::variables::Variables" and f.name == "get"]
     if len(ti) == 1:
         r = canon(Tracer(ti[0].body).local(0))
         rep.check(re.match(r"^(variables::)?Globals::get\(&\*arg:self, &\*arg:name\)$", r) is not None, "C17.get", "Globals as Variables::get", ti[0].loc(), "delegates to the full lookup",
@@ -129,7 +129,7 @@ def run(prog, rep):
     else:
         rep.violation("C17.get", "anchor-lost:Globals as Variables", "", "trait impl not found")
     # nested(): the new set always keeps the given set as its context
-    nf = [f for f in prog.fns.values() if f.name == "nested" and f.self_path == "tsg::variables::Globals"]
+    nf = [f for f in prog.shape_fns() if f.name == "nested" and f.self_path == "tsg::variables::Globals"]
     if len(nf) == 1:
         f = nf[0]
         tr = Tracer(f.body)
@@ -145,7 +145,7 @@ def run(prog, rep):
     else:
         rep.violation("C17.get", "anchor-lost:Globals::nested", "", "not found")
     # VariableMap::set: parent only on Vacant
-    vs = [f for f in prog.fns.values() if f.self_path == "tsg::variables::VariableMap" and f.name == "set"]
+    vs = [f for f in prog.shape_fns() if f.self_path == "tsg::variables::VariableMap" and f.name == "set"]
     if len(vs) == 1:
         f = vs[0]
         body, tr = f.body, Tracer(f.body)
